@@ -670,6 +670,38 @@ func c06HealthCheckToggled(r *ev.Run) {
 		r.Count("health_check_toggles", 1)
 		r.Case("hc-toggled")
 	}
+	// (4) the checker is left out of the health check ("if the checker is null, then TCP checker will be selected"): a running
+	// monitor is reconfigured from the scripted atcp probes to plain connects - both members accept connects, both are used again
+	noChecker := opts
+	noChecker.HealthCheck = &hcpb.HealthCheck{Interval: 25 * time.Millisecond, Timeout: time.Second, FallThreshold: 2, RiseThreshold: 2}
+	for step, o := range []TCPOpts{noChecker, opts, noChecker} {
+		what := []string{"checker removed from the health check", "atcp checker configured again", "checker removed from the health check"}[step]
+		err := s.ConfigUpdate(svc.Name, tcpConfigJSON(svc.Port, o))
+		if sutDied(r, s, map[string]interface{}{"step": "configuration update: " + what}) {
+			return
+		}
+		if err != nil {
+			r.Violation("C06:config-update-rejected:health-check-without-checker", "a valid configuration update ("+what+") was rejected: "+err.Error(), nil)
+			return
+		}
+		if o.HealthCheck.Checker != nil {
+			if !waitProbes(5) {
+				r.Inconclusive("health-check-toggled:no-probes-after-checker-change")
+				return
+			}
+			continue
+		}
+		time.Sleep(400 * time.Millisecond) // >= 3 rise rounds of plain connects
+		got, failed := connect(12)
+		w := map[string]interface{}{"step": what, "relayed_to_member_0": got[0], "relayed_to_member_1": got[1], "connections_not_served": failed}
+		if failed != 0 || got[0]+got[1] != 12 {
+			r.Violation("C06:connection-not-served:default-checker", "with the default (connect-only) checker configured by an update, connections were not served", w)
+		} else if got[0] != 6 || got[1] != 6 {
+			r.Violation("C06:round-robin-uneven:default-checker", "with the default (connect-only) checker both members are healthy: round robin over 2 members must give each 6 of 12 connections", w)
+		}
+		r.Count("default_checker_updates", 1)
+		r.Case("hc-default-checker")
+	}
 	r.Require("health_check_toggles", 2)
 }
 
